@@ -24,6 +24,16 @@ pub assume_specification<T: core::cmp::Ord + core::marker::Destruct>[core::cmp::
 pub assume_specification<T: core::cmp::Ord + core::marker::Destruct>[core::cmp::max](a: T, b: T) -> (r: T)
     ensures T::obeys_cmp_spec() ==> r == (if a.cmp_spec(&b) == core::cmp::Ordering::Greater { a } else { b });
 
+// slice indexing panics (aborts, R7) when out of bounds
+#[verifier::external_body]
+pub fn vx_index<T>(s: &[T], i: usize) -> (r: &T)
+    ensures i < s@.len(), *r == s@[i as int]
+{ &s[i] }
+
+// alloc: slice.to_vec() clones the elements
+pub assume_specification<T: core::clone::Clone>[<[T]>::to_vec](s: &[T]) -> (r: Vec<T>)
+    ensures r@.len() == s@.len(), forall|i: int| 0 <= i < s@.len() ==> cloned::<T>(#[trigger] s@[i], r@[i]);
+
 // core: equality on byte arrays is element-wise
 pub mod vx_axioms {
     use vstd::prelude::*;
